@@ -1,12 +1,16 @@
 (** C18 - seqinfo reports the library's parse of each pattern, one entry per pattern.
     Proved: the collection of the concurrent parses into a map keyed by the
     pattern does not depend on the order in which they finish, and holds exactly
-    one entry per distinct pattern.  The option pipeline is the executable
-    definition [seqinfo_parse] (Model/Seqinfo.v), compared on every check with
-    the built binary and with the library's own setters.  Partial: the printers,
-    JSON encoding and text/template are observed, not proved. *)
+    one entry per distinct pattern; the ORDER of the option stages is translated
+    from func parse of cmd/seqinfo/seqinfo.go on every run (Gen/GenSeqinfo.v) and
+    proved to be the documented one (reformat, component overrides in any order,
+    inversion, index, frame), each override being the library setter.  The stage
+    interpreter is compared on every check with the built binary and with the
+    library's own setters.  Partial: the printers, JSON encoding and
+    text/template are observed, not proved. *)
 From Coq Require Import Permutation.
-From GFS Require Import Base Seqinfo CollectProofs.
+From Coq Require Import Sorted.
+From GFS Require Import Base Pad FrameSet Seq Seqinfo GenSeqinfo SetterProofs CollectProofs SeqinfoProofs.
 
 Theorem collect_is_order_independent : forall (A : Type) (f : bytes -> A) (pats arrivals : list bytes),
   Permutation pats arrivals ->
@@ -26,3 +30,122 @@ Print Assumptions one_entry_per_distinct_pattern.
 Example collect_example :
   map_get (collect [(s2b "b", 2); (s2b "a", 1); (s2b "b", 2)]) (s2b "b") = Some 2.
 Proof. vm_compute. reflexivity. Qed.
+
+(** ---- the option pipeline, in the order the source applies it ---- *)
+
+Definition stage_eqb (a b : stage) : bool :=
+  match a, b with
+  | StFormat, StFormat | StDirname, StDirname | StBasename, StBasename | StExt, StExt | StPadding, StPadding
+  | StRange, StRange | StInverted, StInverted | StIndex, StIndex | StFrame, StFrame => true
+  | _, _ => false
+  end.
+Lemma stage_eqb_eq : forall a b, stage_eqb a b = true -> a = b.
+Proof. intros a b; destruct a, b; simpl; intros H; try reflexivity; discriminate H. Qed.
+
+(** reformat first, then the five component overrides in ANY order, then inversion, then index, then frame *)
+Definition pipeline_ok (pl : list stage) : bool :=
+  match pl with
+  | StFormat :: a :: b :: c :: d :: e :: [StInverted; StIndex; StFrame] =>
+    forallb (fun s => existsb (stage_eqb s) [a; b; c; d; e]) override_block
+  | _ => false
+  end.
+
+(** tie T: the statement order gfsgen reads from the source today passes the boolean test *)
+Lemma generated_pipeline_is_ok : pipeline_ok GenSeqinfo.pipeline = true.
+Proof. vm_compute. reflexivity. Qed.
+
+Lemma pipeline_ok_shape : forall pl, pipeline_ok pl = true ->
+  exists mid, Permutation override_block mid /\ pl = StFormat :: mid ++ [StInverted; StIndex; StFrame].
+Proof.
+  intros pl H. unfold pipeline_ok in H.
+  destruct pl as [|s0 pl]; [discriminate H|]. destruct s0; try discriminate H.
+  destruct pl as [|a [|b [|c [|d [|e [|i pl]]]]]]; try discriminate H.
+  destruct i; try discriminate H.
+  destruct pl as [|x pl]; [discriminate H|]. destruct x; try discriminate H.
+  destruct pl as [|f pl]; [discriminate H|]. destruct f; try discriminate H.
+  destruct pl as [|z r]; [|discriminate H].
+  exists [a; b; c; d; e]. split; [|reflexivity].
+  apply NoDup_Permutation_bis.
+  - unfold override_block. repeat (apply NoDup_cons; [cbn [In]; intros K; repeat (destruct K as [K|K]; [discriminate K|]); exact K|]).
+    apply NoDup_nil.
+  - reflexivity.
+  - intros s Hs. rewrite forallb_forall in H. specialize (H s Hs). apply existsb_exists in H.
+    destruct H as [y [Hy E]]. apply stage_eqb_eq in E. subst y. exact Hy.
+Qed.
+
+(** the tool applies: reformat, then the overrides, then inversion, then index/frame selection -
+    stated on the GENERATED list, robust to a reordering of the (commuting) overrides *)
+Theorem options_are_applied_in_the_documented_order : forall pattern o refmt,
+  seqinfo_run GenSeqinfo.pipeline pattern o refmt = seqinfo_parse pattern o refmt.
+Proof.
+  intros pattern o refmt. destruct (pipeline_ok_shape _ generated_pipeline_is_ok) as [mid [HP E]].
+  rewrite E. apply seqinfo_any_override_order. exact HP.
+Qed.
+
+Theorem documented_order_is_sorted_by_class :
+  StronglySorted (fun a b => (stage_class a <= stage_class b)%nat) reference_pipeline /\
+  NoDup reference_pipeline /\ (forall s, In s reference_pipeline).
+Proof. exact stage_order_is_the_documented_one. Qed.
+
+(** the component overrides commute: their relative order cannot be observed *)
+Theorem component_overrides_commute : forall st o refmt pl1 pl2 q,
+  Permutation pl1 pl2 -> Forall (fun s => stage_class s = 1%nat) pl1 ->
+  run_stages st o refmt pl1 q = run_stages st o refmt pl2 q.
+Proof. exact overrides_commute_gen. Qed.
+
+(** each override IS the library setter: the entry is the read-out of the setters' history (C12) *)
+Theorem overrides_act_as_the_library_setters : forall pattern o refmt q0,
+  overrides_only o ->
+  new_fileseq pattern (if so_hash1 o then Hash1 else Hash4) = Ok q0 ->
+  (nonempty (so_range o) = true -> range_parses (so_range o) = true) ->
+  exists q, seqinfo_parse pattern o refmt = Ok (fill_result q) /\
+            q = run_sops q0 (override_ops o) /\
+            components q = fold_left comp_step (override_ops o) (components q0).
+Proof.
+  intros pattern o refmt q0 Ho Hq Hr. exists (run_sops q0 (override_ops o)).
+  rewrite <- seqinfo_run_reference. split; [apply overrides_are_the_setters; assumption|split; [reflexivity|]].
+  apply (setters_compose (override_ops o) q0).
+Qed.
+
+Theorem no_option_reports_the_library_parse : forall pattern o refmt, no_options o ->
+  seqinfo_parse pattern o refmt =
+  match new_fileseq pattern (if so_hash1 o then Hash1 else Hash4) with
+  | Ok q => Ok (fill_result q)
+  | Err _ => Ok (err_result pattern)
+  | Panic n => Panic n
+  | OutOfFuel => OutOfFuel
+  end.
+Proof. intros pattern o refmt H. rewrite <- seqinfo_run_reference. apply no_options_is_the_library_parse. exact H. Qed.
+
+(** an entry is either the read-out of a sequence or an error entry carrying only its pattern *)
+Theorem error_entries_carry_only_their_pattern : forall pl pattern o refmt r,
+  seqinfo_run pl pattern o refmt = Ok r ->
+  (sr_error r = true -> r = err_result pattern) /\ (sr_error r = false -> exists q, r = fill_result q).
+Proof. exact error_entry_carries_only_its_pattern. Qed.
+
+(** a pattern that fails to parse yields its error entry and leaves every other entry as it would be without it *)
+Theorem bad_pattern_is_isolated : forall o bad k pats e,
+  new_fileseq bad (if so_hash1 o then Hash1 else Hash4) = Err e ->
+  In k pats -> k <> bad ->
+  let f := fun p => seqinfo_run reference_pipeline p o None in
+  map_get (collect (map (fun p => (p, f p)) (bad :: pats))) bad = Some (Ok (err_result bad)) /\
+  map_get (collect (map (fun p => (p, f p)) (bad :: pats))) k =
+  map_get (collect (map (fun p => (p, f p)) pats)) k.
+Proof. exact bad_pattern_does_not_affect_the_others. Qed.
+
+(** every invocation produces an entry: the pipeline never panics or runs out of fuel *)
+Theorem every_pattern_gets_an_entry : forall pattern o refmt,
+  exists r, seqinfo_run GenSeqinfo.pipeline pattern o refmt = Ok r.
+Proof.
+  intros pattern o refmt. rewrite options_are_applied_in_the_documented_order, <- seqinfo_run_reference.
+  apply seqinfo_run_total.
+Qed.
+
+Print Assumptions options_are_applied_in_the_documented_order.
+Print Assumptions documented_order_is_sorted_by_class.
+Print Assumptions component_overrides_commute.
+Print Assumptions overrides_act_as_the_library_setters.
+Print Assumptions no_option_reports_the_library_parse.
+Print Assumptions error_entries_carry_only_their_pattern.
+Print Assumptions bad_pattern_is_isolated.
+Print Assumptions every_pattern_gets_an_entry.
